@@ -249,6 +249,20 @@ for _ in range(30):
     def hfill():
         m.fill(addr, dat, size, x, y, pp); return EV(m.ev)
     add("MachineController_fill %s %s %s %s %s %s" % (L(addr), L(dat), L(size), L(x), L(y), L(pp)), exc_(hfill))
+# ---- fourth round -------------------------------------------------------------------------------------
+from rig.place_and_route.place import utils as _pu
+from rig.place_and_route.constraints import ReserveResourceConstraint as _RRC
+def D(d): return L(list(d.items()))
+for _ in range(40):
+    ks = rng.sample(range(10), rng.randint(0, 5))
+    da = dict((k, rng.randint(-5, 20)) for k in ks)
+    db = dict((k, rng.randint(-5, 20)) for k in rng.sample(range(10), rng.randint(0, 5)))
+    add("add_resources %s %s" % (D(da), D(db)), show(list(_pu.add_resources(da, db).items())))
+    add("subtract_resources %s %s" % (D(da), D(db)), show(list(_pu.subtract_resources(da, db).items())))
+    add("overallocated %s" % D(da), show(bool(_pu.overallocated(da))))
+    k, a, b = rng.randint(0, 9), rng.randint(0, 5), rng.randint(0, 9)
+    add("resources_after_reservation %s %s" % (D(da), L((k, a, b))),
+        exc_(lambda: show(list(_pu.resources_after_reservation(da, _RRC(k, slice(a, b))).items()))))
 from rig.place_and_route.utils import _get_minimal_core_reservations
 for _ in range(40):
     cs = sorted(rng.sample(range(20), rng.randint(0, 8))) if rng.random() < 0.8 else [rng.randint(0, 6) for _ in range(rng.randint(0, 6))]
